@@ -60,6 +60,12 @@ CHECKS = [
          text="x is constructed from t and s so that each of the seven structure forms is accepted about as often as rejected; binding on first use, "
               "comparison afterwards, AnnotationError for unbound names in composites, rollback and build-time validation of structure strings are checked.",
          note="trusted: vf/models/pytree.py (cross-checked per case against jax.tree_util leaves/structure equality); don't-care strings listed in the evidence assumptions"),
+    dict(property_id="C16", level="exploration", design_ref="DESIGN.md §5 C16",
+         technique="Hypothesis-generated decorated calls over 1..3 structured PyTrees with '?' axes, decided by the reference matcher with per-leaf-position names; misuse forms must raise AnnotationError; label-cleared probe after every case",
+         text="Per-position sizes are drawn once and reused across the argument trees, then mutated (swap / change / extra leaf); '?' axes appear alone, "
+              "inside Union[int,.], tuple[.,int] and a structure-less PyTree, with a plain axis of the same name before or after and optionally "
+              "aliased leaves; both typecheckers.",
+         note="trusted: dimlang matcher with labels + ptcheck; nested-wrapping trees contain arrays only"),
 ]
 _pending = "check not built yet in this round (will be claimed once its machinery is committed)"
 NOT_APPLICABLE = [dict(property_id=f"C{i:02d}", reason=_pending) for i in range(1, 21)
